@@ -48,9 +48,9 @@ inductive NStep | passNonProvisional | register | collect | returnCollected
 deriving Repr, DecidableEq
 inductive GStep
   | loadDeps (isProduct : Bool) | loadProds (isProduct needsParam : Bool) | call | parseDefined (raisesIfNone : Bool)
-  | collectEach | extendTasks | modifyTasks | recreate (c : RCond) | ret (v : Bool)
+  | collectEach | raiseOnCollectFail | extendTasks | modifyTasks | recreate (c : RCond) | ret (v : Bool)
 deriving Repr, DecidableEq
-inductive TStep | setDag | setScheduler
+inductive TStep | setDag | renewSkipMarks | setScheduler
 deriving Repr, DecidableEq
 inductive XStep | appendFailReport | setShouldStop
 deriving Repr, DecidableEq
@@ -294,6 +294,22 @@ def _load_loop(st: ast.For, where: str):
     return ("loadProds", flag, needs_param)
 
 
+def _is_raise_on_collect_fail(st: ast.For) -> bool:
+    """`for i in new_reports: if i.outcome == CollectionOutcome.FAIL and i.exc_info: raise i.exc_info[1]` (f1fcb9a): the first
+    defined task whose collection failed makes the generator raise that error."""
+    if st.orelse or not isinstance(st.target, ast.Name) or len(st.body) != 1 or not isinstance(st.body[0], ast.If):
+        return False
+    i = st.target.id
+    cond = st.body[0]
+    if cond.orelse or len(cond.body) != 1 or not isinstance(cond.body[0], ast.Raise):
+        return False
+    tests = [_u(v) for v in cond.test.values] if isinstance(cond.test, ast.BoolOp) and isinstance(cond.test.op, ast.And) else [_u(cond.test)]
+    if f"{i}.outcome == CollectionOutcome.FAIL" not in tests or any(t not in (f"{i}.outcome == CollectionOutcome.FAIL", f"{i}.exc_info") for t in tests):
+        return False
+    exc = cond.body[0].exc
+    return exc is not None and _u(exc).startswith(f"{i}.exc_info")
+
+
 def _gen_steps():
     fn = _top_func("provisional.py", "pytask_execute_task")
     top = [st for st in _body(fn)]
@@ -325,6 +341,11 @@ def _gen_steps():
             src = _u(st)
             if "pytask_collect_task_protocol" in src:
                 steps.append(("collectEach",))
+                continue
+            if _is_raise_on_collect_fail(st):
+                if ("collectEach",) not in steps or ("extendTasks",) in steps:
+                    raise _err(f"{where}: collection errors are raised at an unexpected place")
+                steps.append(("raiseOnCollectFail",))
                 continue
             raise _err(f"{where}: unrecognised loop {src[:100]!r}")
         if isinstance(st, ast.Expr) and isinstance(st.value, ast.Call):
@@ -390,6 +411,27 @@ def _gen_steps():
     return steps, else_ret
 
 
+def _check_renew_skip_marks():
+    fn = _top_func("provisional_utils.py", "_skip_descendants_of_skipped_tasks")
+    loops = [st for st in _body(fn) if isinstance(st, ast.For)]
+    if len(loops) != 1 or any(not _no_effect(st) for st in _body(fn) if st is not loops[0]):
+        raise _err("_skip_descendants_of_skipped_tasks: expected one loop over the execution reports")
+    lp = loops[0]
+    if _u(lp.iter) != "session.execution_reports" or not isinstance(lp.target, ast.Name):
+        raise _err(f"_skip_descendants_of_skipped_tasks: loops over {_u(lp.iter)!r}")
+    r = lp.target.id
+    first = lp.body[0] if lp.body else None
+    ok = isinstance(first, ast.If) and _u(first.test) == f"{r}.outcome != TaskOutcome.SKIP" and len(first.body) == 1 and \
+        isinstance(first.body[0], ast.Continue) and not first.orelse
+    if not ok:
+        raise _err("_skip_descendants_of_skipped_tasks: does not skip reports whose outcome is not SKIP")
+    for n in ast.walk(lp):
+        if isinstance(n, ast.Attribute) and isinstance(n.ctx, ast.Store):
+            raise _err("_skip_descendants_of_skipped_tasks: stores to an attribute")
+        if isinstance(n, ast.Call) and _callee(n) == "Mark" and _u(n.args[0]) != "'skip'":
+            raise _err(f"_skip_descendants_of_skipped_tasks: attaches the mark {_u(n.args[0])}")
+
+
 def _recreate():
     fn = _top_func("provisional_utils.py", "recreate_dag")
     stmts = _body(fn)
@@ -425,11 +467,14 @@ def _recreate():
             if isinstance(st.targets[0], ast.Name):
                 sub.bind(st)
                 continue
-        # fix 0574d89 (finding F33): after the new DAG exists, the skip marks of the descendants of already skipped tasks are
-        # renewed. `skip` marks are outside the feature scope of M7 (see PytaskModel/Provisional.lean header), so the call is
-        # recognised — exactly this callee on exactly `session`, after the new DAG was stored — and emits no step.
+        # fix 0574d89 (finding F33): after the new DAG exists, the `skip` marks of the descendants of tasks whose outcome is SKIP
+        # are renewed. Recognised: exactly this callee on exactly `session`, after the new DAG was stored, and its body acts
+        # only for reports with `outcome == TaskOutcome.SKIP` (`_check_renew_skip_marks`). Emitted as a step of its own; M7 has
+        # no skip marks and no SKIP outcome (see the header of PytaskModel/Provisional.lean), so the interpreter passes over it.
         if isinstance(st, ast.Expr) and _callee(st.value) == "_skip_descendants_of_skipped_tasks" and \
                 [_u(a) for a in st.value.args] == ["session"] and not st.value.keywords and "session.dag" in new_dag_names:
+            _check_renew_skip_marks()
+            steps.append(("renewSkipMarks",))
             continue
         raise _err(f"recreate_dag: unrecognised statement in try {_u(st)[:100]!r}")
     h = tr.handlers[0]
